@@ -14,16 +14,18 @@ import (
 	"io"
 	"os"
 	"runtime"
+	"strconv"
 	"sync"
+	"time"
 
 	"verifharness/sim"
 )
 
 type script struct {
-	Kind  string         `json:"kind"`
-	Obj   map[string]any `json:"obj"`
-	Reads []int          `json:"reads"`
-	Fed   []int          `json:"fed,omitempty"`
+	Kind   string         `json:"kind"`
+	Obj    map[string]any `json:"obj"`
+	Reads  []int          `json:"reads"`
+	Fed    []int          `json:"fed,omitempty"`
 	hasFed bool
 }
 
@@ -63,24 +65,95 @@ func runScripts(args []string) error {
 		return err
 	}
 	lg.Emit(map[string]any{"op": "world", "run": 0, "scripts": len(scripts)})
+
+	// Every object runs in its own goroutine.  Last line of defence against a real call that never returns (the known
+	// in-call loops are covered by preflight): when one object has been running for hangLimit, or the heap explodes,
+	// the recording is closed - finished objects as they are, the unfinished ones marked "hung" (Trace_Wire reports
+	// them as DRIFT: no verdict, but within the time budget) - and the process exits.
+	hangLimit := 60 * time.Second
+	if v, err := strconv.Atoi(os.Getenv("VERIF_WIRE_HANG_S")); err == nil && v > 0 {
+		hangLimit = time.Duration(v) * time.Second
+	}
+	var mu sync.Mutex
 	results := make([][]map[string]any, len(scripts))
-	var wg sync.WaitGroup
-	sem := make(chan struct{}, *par)
-	for i := range scripts {
-		wg.Add(1)
-		sem <- struct{}{}
-		go func(i int) {
-			defer wg.Done()
-			defer func() { <-sem }()
-			results[i] = runOne(i+1, scripts[i])
-		}(i)
+	started := make([]time.Time, len(scripts))
+	finished := make([]bool, len(scripts))
+	closeOut := func(reason string) error {
+		mu.Lock()
+		defer mu.Unlock()
+		notrun := 0
+		for i := range scripts {
+			switch {
+			case finished[i]:
+				lg.EmitAll(results[i])
+			case !started[i].IsZero():
+				head := map[string]any{"op": "obj", "run": i + 1, "kind": scripts[i].Kind, "obj": scripts[i].Obj, "reads": nonNil(scripts[i].Reads)}
+				if scripts[i].hasFed {
+					head["fed"] = nonNil(scripts[i].Fed)
+				}
+				lg.EmitAll([]map[string]any{head, {"op": "end", "run": i + 1, "calls": 0, "hung": true, "reason": reason}})
+			default:
+				notrun++
+			}
+		}
+		if reason != "" {
+			lg.Emit(map[string]any{"op": "world", "run": 0, "aborted": reason, "notrun": notrun})
+		}
+		return lg.Close()
 	}
-	wg.Wait()
-	for i := range scripts {
-		lg.EmitAll(results[i])
-		results[i] = nil
+	allDone := make(chan struct{})
+	go func() {
+		var wg sync.WaitGroup
+		sem := make(chan struct{}, *par)
+		for i := range scripts {
+			wg.Add(1)
+			sem <- struct{}{}
+			go func(i int) {
+				defer wg.Done()
+				defer func() { <-sem }()
+				mu.Lock()
+				started[i] = time.Now()
+				mu.Unlock()
+				r := runOne(i+1, scripts[i])
+				mu.Lock()
+				results[i], finished[i] = r, true
+				mu.Unlock()
+			}(i)
+		}
+		wg.Wait()
+		close(allDone)
+	}()
+	tick := time.NewTicker(200 * time.Millisecond)
+	defer tick.Stop()
+	var ms runtime.MemStats
+	for n := 0; ; n++ {
+		select {
+		case <-allDone:
+			return closeOut("")
+		case <-tick.C:
+			reason := ""
+			mu.Lock()
+			for i := range scripts {
+				if !finished[i] && !started[i].IsZero() && time.Since(started[i]) > hangLimit {
+					reason = fmt.Sprintf("object %d (%s) still running after %s", i+1, scripts[i].Kind, hangLimit)
+					break
+				}
+			}
+			mu.Unlock()
+			if reason == "" && n%5 == 4 {
+				runtime.ReadMemStats(&ms)
+				if ms.HeapAlloc > 6<<30 {
+					reason = "heap beyond 6 GiB"
+				}
+			}
+			if reason != "" {
+				if err := closeOut(reason); err != nil {
+					return err
+				}
+				os.Exit(0) // goroutines stuck inside the real code cannot be stopped
+			}
+		}
 	}
-	return lg.Close()
 }
 
 // runOne executes one script and returns its log lines: obj, read*, end.
@@ -95,7 +168,12 @@ func runOne(run int, s script) []map[string]any {
 	var emitted []byte
 	calls := 0
 	drained := false
-	if emits(s.Kind) {
+	if via, pc, pe := preflight(s); emits(s.Kind) && via != "" {
+		end["terminated"] = false
+		end["via"] = via
+		end["precalls"] = pc
+		end["prebytes"] = pe
+	} else if emits(s.Kind) {
 		r, msg := buildReader(s)
 		if r == nil {
 			// the object could not even be built (constructor panicked): recorded as a failed first read
@@ -106,6 +184,12 @@ func runOne(run int, s script) []map[string]any {
 			lines, emitted, drained = drain(run, r, s.Reads)
 			evs = append(evs, lines...)
 			calls = len(lines)
+			if !drained && len(lines) > 0 {
+				last := lines[len(lines)-1]
+				if _, failed := last["err"]; !failed {
+					end["terminated"] = false // the call bound was used up without end of stream
+				}
+			}
 		}
 	}
 	end["calls"] = calls
